@@ -81,11 +81,13 @@ class LangServer:
         # Parse a dictionary of the command line interface and make them into
         # class variable. This way the command line and the file interfaces
         # are always on sync, with the same default arguments
+        self.option_names: list[str] = []
         for k, v in settings.items():
             # Do not parse command line debug arguments
             if k.startswith("debug_") and k != "debug_log":
                 continue
             setattr(self, k, v)
+            self.option_names.append(k)
 
         self.sync_type: int = 2 if self.incremental_sync else 1
         self.post_messages = []
@@ -1579,6 +1581,8 @@ class LangServer:
         try:
             with open(config_path) as jsonfile:
                 config_dict = json5.load(jsonfile)
+                # Reject the whole file before any of its options is applied
+                self._check_config_file_types(config_dict)
 
                 # Include and Exclude directories
                 self._load_config_file_dirs(config_dict)
@@ -1596,10 +1600,37 @@ class LangServer:
         except FileNotFoundError:
             self.post_message(f"Configuration file '{self.config}' not found")
 
+        except OSError as e:
+            self.post_message(f"Configuration file '{config_path}' was not read: {e}")
+
         # Erroneous json file syntax
         except ValueError as e:
             msg = f'Error: "{e}" while reading "{self.config}" Configuration file'
             self.post_message(msg)
+
+    def _check_config_file_types(self, config_dict) -> None:
+        """Raise ValueError unless the configuration is an object whose known
+        options have values of the same kind as their command line counterparts"""
+        if not isinstance(config_dict, dict):
+            raise ValueError("Top level of the configuration must be an object")
+        for key, value in config_dict.items():
+            if key not in self.option_names:
+                continue
+            default = getattr(self, key)
+            if key == "pp_defs":
+                valid = isinstance(value, (dict, list))
+            elif isinstance(default, bool):
+                valid = isinstance(value, bool)
+            elif isinstance(default, int):
+                valid = isinstance(value, int) and not isinstance(value, bool)
+            elif isinstance(default, str):
+                valid = isinstance(value, str)
+            else:
+                valid = isinstance(value, list) and all(
+                    isinstance(item, str) for item in value
+                )
+            if not valid:
+                raise ValueError(f"Invalid value for option '{key}': {value}")
 
     def _load_config_file_dirs(self, config_dict: dict) -> None:
         self.excl_paths = set(config_dict.get("excl_paths", self.excl_paths))
